@@ -188,7 +188,7 @@ def rule_R2(ctx):
                 whys = []
                 # only branches the call is control dependent on decide that the fallback is taken (a test both of whose outcomes
                 # lead here - the Ethernet header probe - is not a reason)
-                deciding = {a for (a, s_) in C.transitive_controls(b, blk)}
+                deciding = PA.deciding_blocks(b, FS, blk)
                 for tr in trails:
                     w = None
                     for c in [Q._norm_cmp(x) for x in PA.path_conds(P, b, FS, tr)]:
